@@ -371,3 +371,25 @@ func TestC07OtherProcesses(t *testing.T) {
 		}
 	}
 }
+
+// C04: the prologue (architecture check, x32 guard) compiled by other builds and in hostile processes; policies for the
+// x86_64 and x32 tables dominate the corpus, events are foreign-architecture and x32-bit ones (see checkChildCompile).
+func TestC04OtherProcesses(t *testing.T) {
+	check := checkChildCompile("C04")
+	ev.Register("C04", "other-process", check)
+	seed := int(shardSeed() % 1000000)
+	g := rapid.Custom(func(t *rapid.T) spec.Policy {
+		a := []string{"x86_64", "x86_64", "x86_64", "i386", "arm", "aarch64"}[rapid.IntRange(0, 5).Draw(t, "arch")]
+		prof := []gen.Profile{gen.Small, gen.NamesOnly, gen.Degenerate, gen.Edge255}[rapid.IntRange(0, 3).Draw(t, "profile")]
+		return gen.Policy(t, a, gen.Opts{Profile: prof, MaxInsns: 1200})
+	})
+	for k, cfg := range childConfigs {
+		var corpus []spec.Policy
+		for i := 0; i < ev.Scale(40, 400); i++ {
+			corpus = append(corpus, g.Example(seed+5000*k+i))
+		}
+		if !ev.CheckOne(t, "C04", "other-process", childCompileCase{GOARCH: cfg.goarch, Outer: cfg.outer, Corpus: corpus, Seed: uint64(seed)}, check) {
+			return
+		}
+	}
+}
